@@ -11,6 +11,13 @@ T_PATHS = 'bounded-exhaustive exploration of the row transition system (all row 
 T_HIST = 'explicit-state BFS over call histories on live objects with reflection snapshots'
 
 CHECKS = {
+    'C20': ("25-60 documents x {LF, CRLF, CR} x {final newline, none} (incl. non-ASCII lyrics and eight Unicode line-boundary characters inside a cell): every observation of load(file) must "
+            "equal that of loads(text) and must not depend on the line ends; x 10 option sets: the bytes dump writes (also into missing nested directories) must decode to dumps' "
+            "string; the CLI is run as a subprocess in single-file mode (with and without --output_path), directory mode and recursive directory mode (nested directories, both "
+            "suffixes, a file with an import error, unrelated files) in both directions: outputs must equal the API's, exactly the expected files appear, nothing else changes, "
+            "ekern -> kern -> ekern is the identity.",
+            'Assumes a UTF-8 preferred encoding (set explicitly for the CLI subprocesses). Works in a fresh temporary directory that is removed afterwards.',
+            'exhaustive enumeration of the (document x line end x final newline x option set x CLI layout) grid against the in-memory API', 'DESIGN.md §3 C20'),
     'C15': ("21 (thorough 110) documents - core-only (single notes without accidentals over 9 octaves, rests, grace notes, non-kern spines, split/join) and mixed (accidentals, chords) - x all 40 "
             "intervals x 2 directions: the transposed export must have the same grid, every non-note cell, duration, signifier set and rest unchanged, each note's (letter, "
             "alteration, octave) must be the pitchref transposition of the source note, the call may raise only when some exact result needs more than two accidentals, the source's "
